@@ -493,9 +493,9 @@ Proof.
     set (have := match b_get c b with
                  | Some x => match bc_q x, bc_ua x with Some _, Some _ => true | _, _ => false end
                  | None => false end).
-    assert (H1 : let '(b1, cmds1) := (if resume0 then (b, []) else remove_session old_id b) in binv b1 /\ Forall wt_cmd cmds1).
-    { destruct resume0; [split; [exact Hb|constructor]|]. now apply remove_session_ok. }
-    destruct (if resume0 then (b, []) else remove_session old_id b) as [b1 cmds1]. destruct H1 as [Hb1 Hc1].
+    assert (H1 : let '(b1, cmds1) := (if resume0 || negb (negb (is_empty old_id)) then (b, []) else remove_session old_id b) in binv b1 /\ Forall wt_cmd cmds1).
+    { destruct (resume0 || negb (negb (is_empty old_id))); [split; [exact Hb|constructor]|]. now apply remove_session_ok. }
+    destruct (if resume0 || negb (negb (is_empty old_id)) then (b, []) else remove_session old_id b) as [b1 cmds1]. destruct H1 as [Hb1 Hc1].
     destruct (resume0 && have) eqn:Eres.
     + destruct (b_get c b) as [x|] eqn:Ex; [|split; [exact Hb|constructor]].
       destruct (bc_q x) as [q|] eqn:Eq; [|split; [exact Hb|constructor]].
@@ -1110,12 +1110,12 @@ Proof.
     destruct (match b_get c b with Some x => bc_online x | None => false end); [exact Hnil|].
     destruct (sess_get c (b_store b)) as [[old_id old_exp]|]; [|exact Hnil].
     set (resume0 := negb (is_empty old_id) && negb (old_exp =? 0) && negb clean).
-    assert (H1 : let '(b1, cmds1) := (if resume0 then (b, []) else remove_session old_id b) in
+    assert (H1 : let '(b1, cmds1) := (if resume0 || negb (negb (is_empty old_id)) then (b, []) else remove_session old_id b) in
                  binv b1 /\ b_store b1 = exec_all (b_store b) cmds1 /\ b_subs b1 = fold_left mem_eff cmds1 (b_subs b)).
-    { destruct resume0; [split; [exact Hb|split; reflexivity]|].
+    { destruct (resume0 || negb (negb (is_empty old_id))); [split; [exact Hb|split; reflexivity]|].
       pose proof (remove_session_ok old_id b Hb) as H. pose proof (remove_session_eff old_id b) as H'.
       destruct (remove_session old_id b) as [b1 cmds1]. destruct H as [H _]. now split. }
-    destruct (if resume0 then (b, []) else remove_session old_id b) as [b1 cmds1]. destruct H1 as (Hb1 & Hs1 & Hm1).
+    destruct (if resume0 || negb (negb (is_empty old_id)) then (b, []) else remove_session old_id b) as [b1 cmds1]. destruct H1 as (Hb1 & Hs1 & Hm1).
     destruct (resume0 && _) eqn:Eres.
     + destruct (b_get c b) as [x|] eqn:Ex; [|exact Hnil].
       destruct (bc_q x) as [q|] eqn:Eq; [|exact Hnil].
@@ -1531,13 +1531,13 @@ Proof.
     assert (Hcn : is_conn (EConnect c clean expiry pids)) by exact I.
     set (ev := EConnect c clean expiry pids) in *.
     set (resume0 := negb (is_empty old_id) && negb (old_exp =? 0) && negb clean).
-    assert (H1 : let '(b1, cmds1) := (if resume0 then (b, []) else remove_session old_id b) in
+    assert (H1 : let '(b1, cmds1) := (if resume0 || negb (negb (is_empty old_id)) then (b, []) else remove_session old_id b) in
                  binv b1 /\ Forall (foot b ev) cmds1).
-    { destruct resume0; [split; [exact Hb|constructor]|].
+    { destruct (resume0 || negb (negb (is_empty old_id))); [split; [exact Hb|constructor]|].
       pose proof (remove_session_ok old_id b Hb) as H.
       pose proof (remove_session_foot b ev old_id b Hcn (or_introl Hold)) as H'.
       destruct (remove_session old_id b) as [b1 cmds1]. destruct H as [H _]. now split. }
-    destruct (if resume0 then (b, []) else remove_session old_id b) as [b1 cmds1]. destruct H1 as (Hb1 & Hc1).
+    destruct (if resume0 || negb (negb (is_empty old_id)) then (b, []) else remove_session old_id b) as [b1 cmds1]. destruct H1 as (Hb1 & Hc1).
     destruct (resume0 && _) eqn:Eres.
     + destruct (b_get c b) as [x|] eqn:Ex; [|constructor].
       destruct (bc_q x) as [q|] eqn:Eq; [|constructor].
@@ -1790,13 +1790,13 @@ Proof.
   destruct (match b_get c b with Some x => bc_online x | None => false end); [intros []|].
   destruct (sess_get c (b_store b)) as [[old_id old_exp]|]; [|intros []].
   set (resume0 := negb (is_empty old_id) && negb (old_exp =? 0) && negb clean).
-  assert (H1 : let '(b1, cmds1) := (if resume0 then (b, []) else remove_session old_id b) in
+  assert (H1 : let '(b1, cmds1) := (if resume0 || negb (negb (is_empty old_id)) then (b, []) else remove_session old_id b) in
                binv b1 /\ wt_store (b_store b1)).
-  { destruct resume0; [now split|].
+  { destruct (resume0 || negb (negb (is_empty old_id))); [now split|].
     pose proof (remove_session_ok old_id b Hb) as H. pose proof (remove_session_eff old_id b) as H'.
     destruct (remove_session old_id b) as [b1 cmds1]. destruct H as [H Hw]. destruct H' as [Hst _].
     split; [exact H|]. rewrite Hst. now apply exec_all_wt. }
-  destruct (if resume0 then (b, []) else remove_session old_id b) as [b1 cmds1]. destruct H1 as (Hb1 & Hs1).
+  destruct (if resume0 || negb (negb (is_empty old_id)) then (b, []) else remove_session old_id b) as [b1 cmds1]. destruct H1 as (Hb1 & Hs1).
   destruct (resume0 && _) eqn:Eres.
   - destruct (b_get c b) as [x|] eqn:Ex; [|intros []].
     destruct (bc_q x) as [q|] eqn:Eq; [|intros []].
@@ -2182,7 +2182,7 @@ Proof.
   { cbn [bstep]. rewrite Hget. cbn [bc_online bc_q bc_ua]. change (b_store b) with s. rewrite Hsg.
     assert (E1 : is_empty c = false) by (destruct c; [congruence|reflexivity]).
     assert (E2 : (exp =? 0) = false) by now apply N.eqb_neq.
-    rewrite E1, E2. cbn [negb andb bc_q bc_ua].
+    rewrite E1, E2. cbn [negb andb orb bc_q bc_ua].
     destruct (poll_inflight 3 c _ _) as [[s3 q3] j3].
     destruct (if (rq_cur q3 <? rq_len q3)%Z then poll_new c pids s3 q3 else (s3, q3, [])) as [[s4 q4] j4].
     cbn [fst]. rewrite Hfix. change (b_store b) with s. exists q4, s4, b. reflexivity. }
